@@ -54,6 +54,15 @@ theorem C03_value (total cur : Nat) :
     have ht : (total : ℝ) ≠ 0 := by exact_mod_cast h1
     simp [h0, h1, h2, Num.div?, Num.ofNat, Num.neg, Num.log, ht]
 
+/-- the same for whatever pair `InformationContent::calculate(total, current)` stores — this is the
+function `HpoSet::information_content` uses as well (C13: `current` = size of the union over the
+members, `total` = number of records) -/
+theorem C03_value_of_calc (total cur : Nat) (p : Nat × Nat) (h : Onto.icCalc total cur = .ok p) :
+    (icValue p : Option ℝ) =
+      some (if total = 0 ∨ cur = 0 then 0 else -Real.log ((cur : ℝ) / (total : ℝ))) := by
+  rw [((icCalc_ok_iff total cur p).1 h).1]
+  exact C03_value total cur
+
 /-- **Never negative** (and, being a real number, never NaN or infinite) when `n ≤ N` -/
 theorem C03_nonneg (total cur : Nat) (h : cur ≤ total) :
     ∃ v : ℝ, (icValue (icPair total cur) : Option ℝ) = some v ∧ 0 ≤ v := by
